@@ -12,6 +12,10 @@
     * `empty_span_noop`, `failing_motion_noop` — empty span / failing motion: nothing changes
     * `operatorRange_bounds`, `textObject_inRange`, `run_ok` — the range arithmetic never leaves
                                                  the text for any modelled motion
+    * `delete_any_motion`, `yank_any_motion`, `transform_any_motion` — the above composed, for
+                                                 EVERY modelled motion / text object and count
+    * `simple_motion_spans`, `f_target_is_char`, `col0_rule_drops_newline`, `motion_span_adjacent`
+                                               — what the spans of the simple motions are
 -/
 import Ptk.Model.C08
 namespace Ptk.C08
@@ -1488,6 +1492,381 @@ theorem runKeys_yank_never_edits (env : Env) (s s' : St) (opArg motArg : Option 
   simp only [] at hr
   rw [e1, (yank_never_edits s0 s1 _ reg hr).1, e0]
 
+/-! ### the spans of the simple motions -/
+
+theorem all_notNl_of_not_mem (l : Text) (h : '\n' ∉ l) : ∀ a ∈ l, notNl a = true := by
+  intro a ha
+  rw [notNl_iff]
+  intro e; subst e; exact h ha
+
+/-- moving forward inside the current line does not change the line start -/
+theorem lineStart_within_line (t : Text) (i k : Nat) (hi : i ≤ t.length)
+    (hk : k ≤ ((t.drop i).takeWhile notNl).length) : lineStart t (i + k) = lineStart t i := by
+  have hlen := length_takeWhile_le' notNl (t.drop i)
+  simp at hlen
+  have hsplit : t.take (i + k) = t.take i ++ (t.drop i).take k := by
+    rw [List.take_add]
+  have hB : '\n' ∉ (t.drop i).take k := by
+    intro hm
+    have : (t.drop i).take k = ((t.drop i).takeWhile notNl).take k := by
+      conv => lhs; rw [← List.takeWhile_append_dropWhile (p := notNl) (l := t.drop i)]
+      rw [List.take_append_of_le_length hk]
+    rw [this] at hm
+    exact nl_not_mem_takeWhile _ (List.mem_of_mem_take hm)
+  unfold lineStart
+  rw [hsplit, List.reverse_append,
+    List.takeWhile_append_of_pos (by
+      intro a ha
+      exact all_notNl_of_not_mem _ hB a (by simpa using ha))]
+  simp
+  omega
+
+theorem colI_within_line (d : Doc) (hi : Inv d) (k : Nat) (hk : k ≤ (lineAfter d).length) :
+    colI d.text ((k : Int) + d.cur) = (d.col : Int) + k := by
+  unfold Inv at hi
+  have hls := lineStart_within_line d.text d.cur k hi (by simpa [lineAfter, Doc.after] using hk)
+  have hl := lineStart_le d.text d.cur
+  unfold colI Doc.col
+  have : ¬ ((k : Int) + d.cur < 0) := by omega
+  rw [if_neg this]
+  have e : ((k : Int) + (d.cur : Int)).toNat = d.cur + k := by omega
+  rw [e, hls]
+  omega
+
+/-- `h` / `0`: exactly the `min(col, count)` (all `col`) characters before the cursor;
+    `l` / `$`: exactly the `min(count, rest)` (all remaining) characters of the line -/
+theorem simple_motion_spans (isSpace sp : Char → Bool) (d : Doc) (hi : Inv d) (count : Nat) :
+    operatorRange d (textObject isSpace sp d count .h) = (-((min d.col count : Nat) : Int), 0) ∧
+    operatorRange d (textObject isSpace sp d count .zero) = (-((lineBefore d).length : Int), 0) ∧
+    operatorRange d (textObject isSpace sp d count .l) = (0, ((min count (lineAfter d).length : Nat) : Int)) ∧
+    operatorRange d (textObject isSpace sp d count .dollar) = (0, ((lineAfter d).length : Int)) := by
+  have hc := col_eq d hi
+  have hcol0 : colI d.text ((0 : Int) + d.cur) = d.col := by
+    have := colI_within_line d hi 0 (by omega)
+    simpa using this
+  have back : ∀ n : Nat, n ≤ d.col →
+      operatorRange d { start := -(n : Int), stop := 0, type := .exclusive } = (-(n : Int), 0) := by
+    intro n hn
+    unfold operatorRange TextObject.sorted
+    by_cases h0 : n = 0
+    · subst h0; simp
+    · have hlt : -(n : Int) < 0 := by omega
+      simp only [hlt, if_true]
+      have : ¬ (True ∧ colI d.text (0 + (d.cur : Int)) = 0) := by
+        rw [hcol0]; omega
+      rw [if_neg this]
+  have fwd : ∀ n : Nat, n ≤ (lineAfter d).length →
+      operatorRange d { start := (n : Int), stop := 0, type := .exclusive } = (0, (n : Int)) := by
+    intro n hn
+    unfold operatorRange TextObject.sorted
+    have hlt : ¬ ((n : Int) < 0) := by omega
+    simp only [hlt, if_false]
+    have hcol := colI_within_line d hi n hn
+    have : ¬ ((0 : Int) < n ∧ colI d.text ((n : Int) + (d.cur : Int)) = 0) := by
+      rw [hcol]; omega
+    rw [if_neg this]
+  refine ⟨?_, ?_, ?_, ?_⟩
+  · simp only [textObject]; exact back _ (by omega)
+  · simp only [textObject]; exact back _ (by omega)
+  · simp only [textObject]; exact fwd _ (by omega)
+  · simp only [textObject]; exact fwd _ (by omega)
+
+/-- the column-0 rule of exclusive motions only ever drops a newline: when it applies, the
+    character just before the motion's end is the line separator -/
+theorem col0_rule_drops_newline (d : Doc) (o : TextObject) (h : InRange d o) (ht : o.type = .exclusive)
+    (hlt : o.sorted.1 < o.sorted.2) (hcol : colI d.text (o.sorted.2 + d.cur) = 0) :
+    operatorRange d o = (o.sorted.1, o.sorted.2 - 1) ∧
+    d.text[(o.sorted.2 + (d.cur : Int)).toNat - 1]? = some '\n' := by
+  obtain ⟨h1, h2⟩ := sorted_inrange d o h
+  constructor
+  · unfold operatorRange; rw [ht]; simp [hlt, hcol]
+  · unfold colI at hcol
+    have hn : ¬ (o.sorted.2 + (d.cur : Int) < 0) := by omega
+    rw [if_neg hn] at hcol
+    have hl := lineStart_le d.text (o.sorted.2 + (d.cur : Int)).toNat
+    have heq : lineStart d.text (o.sorted.2 + (d.cur : Int)).toNat = (o.sorted.2 + (d.cur : Int)).toNat := by omega
+    rcases lineStart_is_line_start d.text (o.sorted.2 + (d.cur : Int)).toNat with h0 | h0
+    · omega
+    · rw [heq] at h0; exact h0
+
+/-! ### change = delete + insert mode; named registers; the target of `f` -/
+
+/-- `c` edits exactly like `d`; it only enters insert mode in addition -/
+theorem change_eq_delete (s sd sc : St) (o : TextObject) (reg : Option Char)
+    (hd : opDelete s o reg false = some sd) (hc : opDelete s o reg true = some sc) :
+    sc = { sd with insert := true } := by
+  unfold opDelete at hd hc
+  cases hcut : cut s.doc o with
+  | none => simp [hcut] at hd
+  | some p =>
+    obtain ⟨d', c⟩ := p
+    simp [hcut] at hd hc
+    subst hd; subst hc
+    simp
+
+/-- `"xd<motion>` with a valid register name: exactly the removed characters go to register
+    `x`; the clipboard and all other registers are untouched -/
+theorem delete_charwise_register (s s' : St) (o : TextObject) (change : Bool) (r : Char)
+    (hreg : isRegName r = true)
+    (hr : InRange s.doc o) (ht : o.type ≠ .linewise)
+    (hne : (operatorRange s.doc o).1 < (operatorRange s.doc o).2)
+    (hin : (s.cur : Int) + (operatorRange s.doc o).1 < s.text.length)
+    (h : opDelete s o (some r) change = some s') :
+    ∃ a b : Nat, (a : Int) = s.cur + (operatorRange s.doc o).1 ∧ (b : Int) = s.cur + (operatorRange s.doc o).2 ∧
+      a < b ∧ s'.text = s.text.take a ++ s.text.drop b ∧ s'.cur = a ∧
+      regGet s'.regs r = some { text := (s.text.take b).drop a, lines := false } ∧
+      (∀ m, m ≠ r → regGet s'.regs m = regGet s.regs m) ∧ s'.clip = s.clip := by
+  obtain ⟨a, b, ha, hb, hab, hcut⟩ := cut_charwise s.doc o hr ht hne
+  obtain ⟨d', c, hc, e1, e2, _, e4, e5⟩ := delete_spec s s' o (some r) change h
+  rw [hcut] at hc
+  simp at hc
+  obtain ⟨hd, hcl⟩ := hc
+  subst hd; subst hcl
+  have hd1 : s.doc.cur = s.cur := rfl
+  have hd2 : s.doc.text = s.text := rfl
+  rw [hd1] at ha hb
+  have hal : a < s.text.length := by omega
+  have hnonempty : ¬ ((({ text := (s.doc.text.take b).drop a, lines := false } : Clip).text = []) ∧
+      ({ text := (s.doc.text.take b).drop a, lines := false } : Clip).lines = false) := by
+    simp [hd2]
+    omega
+  have hs := (store_spec { s with text := (s.doc.text.take a ++ s.doc.text.drop b), cur := a } (some r)
+      { text := (s.doc.text.take b).drop a, lines := false }).2 hnonempty
+  simp only [] at hs
+  obtain ⟨hs1, hs2, _⟩ := hs
+  obtain ⟨hs2a, hs2b⟩ := hs2 hreg
+  refine ⟨a, b, ha, hb, hab, e1, e2, ?_, ?_, ?_⟩
+  · rw [e5]; exact hs2a
+  · intro m hm; rw [e5]; exact hs2b m hm
+  · rw [e4]; exact hs1
+
+theorem occGo_sound (c : Char) (pos : Nat) (l : Text) (k : Nat) (h : k ∈ occGo c pos l) :
+    l[k - pos]? = some c := by
+  induction l generalizing pos with
+  | nil => simp [occGo] at h
+  | cons x xs ih =>
+    unfold occGo at h
+    split at h
+    · rename_i hx
+      simp at h
+      rcases h with h | h
+      · subst h; simp [hx]
+      · have hb := occGo_bound c (pos + 1) xs k h
+        have := ih (pos + 1) h
+        have e : k - pos = (k - (pos + 1)) + 1 := by omega
+        rw [e]; simpa using this
+    · have hb := occGo_bound c (pos + 1) xs k h
+      have := ih (pos + 1) h
+      have e : k - pos = (k - (pos + 1)) + 1 := by omega
+      rw [e]; simpa using this
+
+theorem getElem?_of_takeWhile {α : Type} (p : α → Bool) (l : List α) (i : Nat) (x : α)
+    (h : (l.takeWhile p)[i]? = some x) : l[i]? = some x := by
+  have hl : l = l.takeWhile p ++ l.dropWhile p := (List.takeWhile_append_dropWhile).symm
+  rw [hl, List.getElem?_append_left]
+  · exact h
+  · exact (List.getElem?_eq_some_iff.1 h).1
+
+/-- `f<c>` lands on an occurrence of `c`: `df<c>` deletes up to and including a `c`,
+    `dt<c>` up to just before it -/
+theorem f_target_is_char (d : Doc) (c : Char) (count : Nat) (m : Int)
+    (h : findFwd d c true count = some m) :
+    1 ≤ m ∧ d.text[d.cur + m.toNat]? = some c := by
+  unfold findFwd at h
+  simp only [if_true] at h
+  split at h
+  · simp at h
+  · obtain ⟨k, hn, hk⟩ := Option.map_eq_some_iff.1 h
+    have hmem := nth_mem _ _ _ hn
+    have hs := occGo_sound c 0 _ k hmem
+    simp at hs
+    -- index k in lineAfter.drop 1 = index k+1 in lineAfter = index cur+k+1 in the text
+    have h1 : (lineAfter d)[k + 1]? = some c := hs
+    have h2 := getElem?_of_takeWhile notNl d.after (k + 1) c (by simpa [lineAfter] using h1)
+    simp [Doc.after] at h2
+    refine ⟨by omega, ?_⟩
+    have : d.cur + m.toNat = d.cur + (k + 1) := by omega
+    rw [this]; exact h2
+
+/-! ### capstone: `d<motion>` for every modelled motion -/
+
+/-- For EVERY modelled motion / text object, every count and every state with the cursor inside
+    the text, `d<motion>` succeeds, removes one contiguous piece `removed` located at the new
+    cursor (re-inserting it there gives back the old text), leaves the named registers alone,
+    and the clipboard receives exactly `removed` (characterwise), or `removed` without the
+    newline that terminates its last line (linewise, type LINES), or — when nothing is removed —
+    stays as it is (a linewise motion on an empty last line records that empty line). -/
+theorem delete_any_motion (env : Env) (s : St) (opArg motArg : Option Nat) (m : Motion)
+    (hi : s.cur ≤ s.text.length) (hm : ∀ o, m ≠ .raw o) :
+    ∃ s' removed, run env s opArg (.delete none) motArg m = some s' ∧
+      s.text = s'.text.take s'.cur ++ removed ++ s'.text.drop s'.cur ∧
+      s'.regs = s.regs ∧
+      ((removed = [] ∧ s'.text = s.text ∧ s'.clip = s.clip) ∨
+       (removed ≠ [] ∧ s'.clip = { text := removed, lines := false }) ∨
+       (s'.clip.lines = true ∧ ∃ nl : Text, (nl = [] ∨ nl = ['\n']) ∧ s'.clip.text ++ nl = removed)) := by
+  obtain ⟨s', hrun, _⟩ := run_ok env s opArg motArg (.delete none) m hi hm
+  have hr := textObject_inRange env.isSpace env.reSpace s.doc hi (combineArgs opArg motArg) m hm
+  generalize ho : textObject env.isSpace env.reSpace s.doc (combineArgs opArg motArg) m = o at hr
+  have hdel : opDelete s o none false = some s' := by
+    unfold run applyOp at hrun
+    simp only [] at hrun
+    rw [ho] at hrun
+    exact hrun
+  by_cases ht : o.type = .linewise
+  · obtain ⟨a, b, _, _, _, _, _, _, _, _, hclip, hregs, nl, hnl, hrec⟩ :=
+      delete_linewise_exact s s' o false hr ht hdel
+    refine ⟨s', s'.clip.text ++ nl, hrun, hrec, hregs, Or.inr (Or.inr ⟨by rw [hclip], nl, hnl, rfl⟩)⟩
+  · by_cases hne : (operatorRange s.doc o).1 < (operatorRange s.doc o).2
+    · obtain ⟨b1, b2, b3⟩ := operatorRange_bounds s.doc o hr
+      have hd1 : s.doc.cur = s.cur := rfl
+      have hd2 : s.doc.text = s.text := rfl
+      rw [hd1] at b1 b3
+      rw [hd2] at b3
+      by_cases hin : (s.cur : Int) + (operatorRange s.doc o).1 < s.text.length
+      · obtain ⟨a, b, ha, hb, hab, _, _, hclip, hregs, hrec⟩ :=
+          delete_charwise_exact s s' o false hr ht hne hin hdel
+        refine ⟨s', s'.clip.text, hrun, hrec, hregs, Or.inr (Or.inl ⟨?_, by rw [hclip]⟩)⟩
+        rw [hclip]
+        simp
+        omega
+      · -- the range sticks out behind the text and holds no character
+        obtain ⟨a, b, ha, hb, hab, hcut⟩ := cut_charwise s.doc o hr ht hne
+        rw [hd1] at ha hb
+        have hal : a = s.text.length := by
+          have : (a : Int) ≤ s.text.length := by split at b3 <;> omega
+          omega
+        unfold opDelete at hdel
+        rw [hcut] at hdel
+        simp only [] at hdel
+        have hempty : (s.doc.text.take b).drop a = [] := by
+          apply List.drop_eq_nil_of_le
+          rw [hd2, hal, List.length_take]; omega
+        rw [hempty] at hdel
+        have hst : ∀ x : St, store x none { text := [], lines := false } = x := by
+          intro x; unfold store; simp
+        rw [hst] at hdel
+        simp at hdel
+        subst hdel
+        have htext : s.doc.text.take a ++ s.doc.text.drop b = s.text := by
+          rw [hd2, hal, List.take_length, List.drop_eq_nil_of_le (by omega)]; simp
+        refine ⟨_, [], hrun, ?_, rfl, Or.inl ⟨rfl, htext, rfl⟩⟩
+        simp only [List.append_nil, List.take_append_drop]
+        exact htext.symm
+    · have he : (operatorRange s.doc o).1 ≥ (operatorRange s.doc o).2 := by omega
+      have hnoop := empty_span_noop env s s' (.delete none) o (combineArgs opArg motArg) ht he
+        (by simpa [applyOp] using hdel)
+      refine ⟨s', [], hrun, ?_, hnoop.2.2.2, Or.inl ⟨rfl, hnoop.1, hnoop.2.2.1⟩⟩
+      rw [hnoop.1, hnoop.2.1]
+      simp
+
+/-- `y<motion>` / `"xy<motion>` for every modelled motion: succeeds, text and cursor unchanged -/
+theorem yank_any_motion (env : Env) (s : St) (opArg motArg : Option Nat) (reg : Option Char) (m : Motion)
+    (hi : s.cur ≤ s.text.length) (hm : ∀ o, m ≠ .raw o) :
+    ∃ s', run env s opArg (.yank reg) motArg m = some s' ∧ s'.text = s.text ∧ s'.cur = s.cur := by
+  obtain ⟨s', hrun, _⟩ := run_ok env s opArg motArg (.yank reg) m hi hm
+  refine ⟨s', hrun, ?_⟩
+  unfold run applyOp at hrun
+  simp only [] at hrun
+  have := yank_never_edits s s' _ reg hrun
+  exact ⟨this.1, this.2.1⟩
+
+/-- `g?` `gu` `gU` `g~` + every modelled motion: succeeds; the new text is the old one with one
+    piece `text[a:b)` replaced by the callback's image of exactly that piece (or unchanged);
+    clipboard and registers are untouched -/
+theorem transform_any_motion (env : Env) (s : St) (opArg motArg : Option Nat) (k : Transform) (m : Motion)
+    (hi : s.cur ≤ s.text.length) (hm : ∀ o, m ≠ .raw o) :
+    ∃ s', run env s opArg (.transform k) motArg m = some s' ∧ s'.clip = s.clip ∧ s'.regs = s.regs ∧
+      (s' = s ∨ ∃ a b : Nat, a < b ∧
+        s'.text = s.text.take a ++ env.tf k ((s.text.take b).drop a) ++ s.text.drop b) := by
+  obtain ⟨s', hrun, _⟩ := run_ok env s opArg motArg (.transform k) m hi hm
+  have hr := textObject_inRange env.isSpace env.reSpace s.doc hi (combineArgs opArg motArg) m hm
+  refine ⟨s', hrun, ?_⟩
+  unfold run applyOp at hrun
+  simp only [] at hrun
+  obtain ⟨e1, e2, _, e4, e5⟩ := transform_frame (env.tf k) s s' _ hr hrun
+  refine ⟨e1, e2, ?_⟩
+  by_cases hlt : (operatorRange s.doc (textObject env.isSpace env.reSpace s.doc (combineArgs opArg motArg) m)).1 <
+      (operatorRange s.doc (textObject env.isSpace env.reSpace s.doc (combineArgs opArg motArg) m)).2
+  · obtain ⟨a, b, _, _, hab, ht⟩ := e5 hlt
+    exact Or.inr ⟨a, b, hab, ht⟩
+  · exact Or.inl (e4 (by omega))
+
+theorem isPrefixOf'_spec (p l : Text) (h : isPrefixOf' p l = true) : l = p ++ l.drop p.length := by
+  induction p generalizing l with
+  | nil => simp
+  | cons a as ih =>
+    cases l with
+    | nil => simp [isPrefixOf'] at h
+    | cons b bs =>
+      simp [isPrefixOf'] at h
+      obtain ⟨h1, h2⟩ := h
+      subst h1
+      simp
+      exact ih bs h2
+
+theorem repeat_all_space (n : Nat) : ∀ c ∈ repeatText indentUnit n, c = ' ' := by
+  induction n with
+  | zero => simp [repeatText]
+  | succ k ih =>
+    intro c hc
+    simp [repeatText, indentUnit] at hc
+    rcases hc with hc | hc
+    · exact hc
+    · exact ih c hc
+
+/-- inside the row range: `>` prefixes every line with exactly `4 * count` spaces; `<` removes
+    only a prefix of blanks (never a non-blank character) -/
+theorem indent_inside (isSpace : Char → Bool) (s s' : St) (o : TextObject) (count : Nat) (un : Bool)
+    (hsn : spansNothing s.doc o = false)
+    (h : opIndent isSpace s o count un = some s') :
+    ∀ i : Nat, (getLineNumbers s.doc o).1 ≤ (i : Int) → (i : Int) ≤ (getLineNumbers s.doc o).2 →
+      ∀ l, (lines s.text)[i]? = some l →
+        ∃ l', (lines s'.text)[i]? = some l' ∧
+          (un = false → l' = repeatText indentUnit count ++ l) ∧
+          (un = true → ∃ p, l = p ++ l' ∧ ∀ c ∈ p, c = ' ' ∨ isSpace c = true) := by
+  intro i h1 h2 l hl
+  have hneg : ¬ ((getLineNumbers s.doc o).1 < 0 ∨ (getLineNumbers s.doc o).2 < 0) := by
+    intro hn
+    simp only [opIndent, hsn, hn, if_true] at h
+    simp at h
+  have hin : (getLineNumbers s.doc o).1.toNat ≤ i ∧ i < (getLineNumbers s.doc o).2.toNat + 1 := by omega
+  cases un with
+  | true =>
+    simp only [opIndent, hsn, hneg, if_false, if_true] at h
+    simp at h; subst h
+    have hf : ∀ l : Text, '\n' ∉ l →
+        '\n' ∉ (if isPrefixOf' (repeatText indentUnit count) l then l.drop (repeatText indentUnit count).length
+                 else l.dropWhile isSpace) := by
+      intro l hl
+      split
+      · exact fun hm => hl (List.mem_of_mem_drop hm)
+      · exact fun hm => hl ((List.dropWhile_sublist isSpace).subset hm)
+    simp only [unindent]
+    rw [lines_transformLines _ s.text _ _ hf, List.getElem?_mapIdx, hl]
+    simp only [Option.map_some, hin, and_self, if_true]
+    refine ⟨_, rfl, by simp, fun _ => ?_⟩
+    split
+    · rename_i hp
+      exact ⟨repeatText indentUnit count, isPrefixOf'_spec _ _ hp,
+        fun c hc => Or.inl (repeat_all_space count c hc)⟩
+    · refine ⟨l.takeWhile isSpace, (List.takeWhile_append_dropWhile).symm, fun c hc => Or.inr ?_⟩
+      have := @List.all_takeWhile _ isSpace l
+      rw [List.all_eq_true] at this
+      exact this c hc
+  | false =>
+    simp only [opIndent, hsn, hneg, if_false] at h
+    simp at h; subst h
+    have hf : ∀ l : Text, '\n' ∉ l → '\n' ∉ (repeatText indentUnit count ++ l) := by
+      intro l hl hm
+      simp at hm
+      rcases hm with hm | hm
+      · exact repeat_no_nl count hm
+      · exact hl hm
+    simp only [indent]
+    rw [lines_transformLines _ s.text _ _ hf, List.getElem?_mapIdx, hl]
+    simp only [Option.map_some, hin, and_self, if_true]
+    exact ⟨_, rfl, fun _ => rfl, by simp⟩
+
 /-! ### non-vacuity: the hypotheses are satisfiable, the model computes the expected results -/
 section examples
 
@@ -1536,5 +1915,17 @@ example : (run exEnv { exSt with text := "say 'hi' x".toList, cur := 5 } none (.
             (.quote '\'' true)).map (fun s => (s.text, s.cur, s.clip.text, s.insert))
     = some ("say '' x".toList, 5, "hi".toList, true) := by decide
 
+-- hypotheses of the register / span / target theorems on the same state
+example : Inv exSt.doc := by unfold Inv; decide
+example : isRegName 'a' = true ∧ isRegName '7' = true ∧ isRegName 'A' = false := by decide
+example : operatorRange exSt.doc (textObject exSp exSp exSt.doc 2 .l) = (0, 2) := by decide
+example : operatorRange exSt.doc (textObject exSp exSp exSt.doc 5 .h) = (-1, 0) := by decide
+example : findFwd exSt.doc 'd' true 1 = some 3 := by decide
+example : (run exEnv exSt none (.delete (some 'a')) none (.f 'd')).map (fun s => (s.text, s.regs, s.clip.text))
+    = some ("a\nef".toList, [('a', ⟨"b cd".toList, false⟩)], "zz".toList) := by decide
+-- the column-0 rule: `dw` from "cd" would end on the 'e' of the next line (column 0)
+example : colI exSt.text ((textObject exSp exSp { exSt.doc with cur := 3 } 1 (.w false)).sorted.2 + 3) = 0 := by decide
+-- arguments are multiplied, a million and more counts as 1
+example : combineArgs (some 2) (some 3) = 6 ∧ combineArgs none none = 1 ∧ combineArgs (some 1000) (some 1000) = 1 := by decide
 end examples
 end Ptk.C08
